@@ -28,9 +28,11 @@ OPS = (
 
 def build(spec):
     rows = []
-    for i, (kind, ln, strand) in enumerate(spec):
+    for _i, (kind, ln, strand) in enumerate(spec):
         if kind == "F":
-            rows.append(Fragment(f"c{i}", 11, 10 + ln, strand))
+            # named after the alphabet letter, not the position: a scaffold that lists the same contig interval twice
+            # has two rows that are equal by value but are different objects
+            rows.append(Fragment(f"c{ln}{'m' if strand == -1 else 'p'}", 11, 10 + ln, strand))
         else:
             rows.append(Gap(ln, "scaffold" if ln == 1 else "contig"))
     return Scaffold("s", rows)
